@@ -106,6 +106,7 @@ import Apko.Proofs.Lemmas.CacheLive
 import Apko.Proofs.Lemmas.CacheSig
 import Apko.Proofs.Lemmas.CacheGlue
 import Apko.Proofs.Lemmas.CacheRepos
+import Apko.Proofs.Lemmas.CachePlain
 import Apko.Generated.Cache
 import Apko.Generated.CacheGlue
 
@@ -1448,6 +1449,121 @@ theorem weak_validator_serves_stale :
 
 end glue
 
+/-! #### the branch without a validator: key discovery, key rotation -/
+
+section plain
+open Apko.CacheGlue Plain
+
+/-- FULL statement for the branch of `RoundTrip` that has no validator: over every history of publications
+(key rotations included) and requests, every request through the cache is answered as without it -/
+def PlainTransparent (stores : Stores) : Prop := ∀ h : List PEv, panswers stores h {} = pdirect h {}
+
+/-- the branch is transparent over every history in which the URL classes it stores are immutable -/
+theorem unvalidated_store_transparent_partial (stores : Stores) (h : List PEv) (himm : PLegal stores h {}) :
+    panswers stores h {} = pdirect h {} :=
+  answers_eq_direct stores h {} (fresh_empty stores) himm
+
+/-- … and ONLY there: whatever class the branch stores, a URL of that class whose body changes between two requests
+(a key rotation: `b1 ≠ b2`) is answered with the old body, while the build without the cache gets the new one; that
+history is exactly what `PLegal` excludes.  Transparency needs every class that is stored without a validator to be
+immutable. -/
+theorem unvalidated_store_needs_immutable (stores : Stores) (u : Url) (hs : stores u = true) (b1 b2 : Body) (hne : b1 ≠ b2) :
+    panswers stores (rotation u b1 b2) {} = [some b1, some b1] ∧
+    pdirect (rotation u b1 b2) {} = [some b1, some b2] ∧
+    panswers stores (rotation u b1 b2) {} ≠ pdirect (rotation u b1 b2) {} ∧
+    ¬ PLegal stores (rotation u b1 b2) {} := by
+  obtain ⟨ha, hd⟩ := rotation_answers stores u hs b1 b2
+  refine ⟨ha, hd, ?_, ?_⟩
+  · rw [ha, hd]
+    intro h
+    simp at h
+    exact hne h
+  · intro hl
+    have := unvalidated_store_transparent_partial stores _ hl
+    rw [ha, hd] at this
+    simp at this
+    exact hne this
+
+/-- over ALL histories (nothing is known about which URLs are immutable) the branch is transparent iff it stores nothing -/
+theorem plain_transparent_iff_stores_nothing (stores : Stores) : PlainTransparent stores ↔ ∀ u, stores u = false := by
+  constructor
+  · intro ht u
+    cases hs : stores u
+    · rfl
+    · exact absurd (ht (rotation u 0 1)) (unvalidated_store_needs_immutable stores u hs 0 1 (by decide)).2.2.1
+  · intro hn h
+    exact unvalidated_store_transparent_partial stores h (legal_of_stores_nothing stores hn h {})
+
+/-- the code as it is saves nothing on that branch: transparent over every history, rotations included; the files
+below the URL paths stay what they were -/
+theorem real_unvalidated_branch_transparent : PlainTransparent storesReal :=
+  (plain_transparent_iff_stores_nothing storesReal).2 fun _ => rfl
+
+theorem real_unvalidated_branch_stores_nothing (h : List PEv) (s : PSt) :
+    (h.foldl (pstep storesReal) s).plain = s.plain := real_run_plain h s
+
+/-- the hypotheses are satisfiable by a non-trivial history: a stored class (URL 7: an apk) that keeps its body, a
+class that is not stored (URL 1: the key set) and rotates -/
+example : PLegal (fun u => u == 7) [.publish 7 3, .get 7, .publish 1 10, .get 1, .publish 7 3, .publish 1 11, .get 1, .get 7] {} ∧
+    panswers (fun u => u == 7) [.publish 7 3, .get 7, .publish 1 10, .get 1, .publish 7 3, .publish 1 11, .get 1, .get 7] {}
+      = [some 3, some 10, some 11, some 3] := by
+  refine ⟨?_, by decide⟩
+  simp [PLegal, pstep, plainFetch, PSt.cur, PSt.file, List.lookup]
+
+/-- key discovery of one build through a cache object without a remembered answer: the discovery document, then the
+key set — what the build without the cache gets, in every state whose stored files are fresh -/
+theorem discover_transparent (stores : Stores) (s : PSt) (hf : Fresh stores s) (conf jwks : Url) :
+    (discover stores s none conf jwks).2 = (plainDirect s conf).bind fun _ => plainDirect s jwks := by
+  unfold discover
+  have h1 := fetch_answer_of_fresh hf conf
+  have hf1 := fetch_keeps_fresh hf conf
+  have hs1 := fetch_srv stores s conf
+  generalize hx : plainFetch stores s conf = x at h1 hf1 hs1
+  obtain ⟨s1, r⟩ := x
+  simp only at h1 hf1 hs1
+  cases r with
+  | none => simp [← h1]
+  | some b =>
+    simp only [← h1, Option.bind]
+    rw [fetch_answer_of_fresh hf1 jwks]
+    simp [plainDirect, PSt.cur, hs1]
+
+/-- the seeded change as a configuration: the key set (URL 1) is stored on that branch; after a rotation in a later
+process (no memo) the build over the cache installs the OLD key set, the build without the cache the new one -/
+theorem stored_key_set_survives_rotation :
+    let stores : Stores := fun u => u != 7
+    let s1 := (discover stores { srv := [(0, 0), (1, 10)] } none 0 1).1
+    let s2 : PSt := { s1 with srv := (1, 11) :: s1.srv }
+    (discover stores s2 none 0 1).2 = some 10 ∧
+      ((plainDirect s2 0).bind fun _ => plainDirect s2 1) = some 11 := by decide
+
+/-- FULL statement for key discovery through a cache object (refuted for objects that live longer than one build:
+finding F19g): what a build discovers is what the build without the cache discovers at that moment -/
+def DiscoveryTransparent (memo : Option Body) : Prop :=
+  ∀ (s : PSt) (conf jwks : Url), Fresh storesReal s →
+    (discover storesReal s memo conf jwks).2 = (plainDirect s conf).bind fun _ => plainDirect s jwks
+
+theorem discovery_transparent_partial : DiscoveryTransparent none :=
+  fun s conf jwks hf => discover_transparent storesReal s hf conf jwks
+
+/-- the remembered answer of `Cache.discoverKeys` is never revalidated: a cache object that outlives a key rotation
+(`options.Default.SharedCache`: as long as the process) answers with the keys of its first build (finding F19g) -/
+theorem discovery_memo_is_stale (k : Body) : ¬ DiscoveryTransparent (some k) := by
+  intro h
+  have := h { srv := [(0, 0), (1, k + 1)] } 0 1 (by intro u b hb; simp [PSt.file, List.lookup] at hb)
+  simp [discover, plainDirect, PSt.cur, List.lookup] at this
+
+/-- FULL statement for the offline build (refuted: finding F19h): key discovery offline gives the keys of a cached
+repository state or FAILS THE BUILD.  The code as it is: nothing of a discovery is ever in the cache (`storesReal`),
+the offline request is an error (`discoverOffline … = none`), and `fetchChainguardKeys` only LOGS that error
+(`tie_discovery_error_is_logged`): the offline build goes on and produces an image without the discovered keys. -/
+theorem offline_discovery_unanswered (h : List PEv) (conf jwks : Url) :
+    discoverOffline (h.foldl (pstep storesReal) {}) none conf jwks = none := by
+  have hp := real_unvalidated_branch_stores_nothing h {}
+  simp [discoverOffline, plainOffline, PSt.file, hp, List.lookup]
+
+end plain
+
 /-! #### ties of the glue model -/
 
 /-- the condition under which `GetRepositoryIndexes` drops a repository, as a rule of the model -/
@@ -1521,5 +1637,24 @@ cached under a directory the cache was not given: `cachePackage` is only ever ca
 theorem tie_expandPackage_cache_dir : Generated.cacheglue_cacheDirForPackageErr =
     "cacheDir, err = cacheDirForPackage(a.cache.dir, pkg); err != nil => return nil, err" ∧
     Generated.cacheglue_cachePackageCalls = ["a.cachePackage(ctx, pkg, exp, cacheDir)"] := ⟨rfl, rfl⟩
+
+/-- the branch of `RoundTrip` that has no validator (`Model.plainFetch`, `storesReal`): selected by `!t.etagRequired`,
+a hit is an `os.Open` of the URL's cache file that succeeds (nothing else is looked at: no validator), a miss fails
+offline and otherwise hands the request to the wrapped client — the ONLY call it makes: nothing is saved there -/
+theorem tie_unvalidated_branch_stores_nothing : Generated.cacheglue_plainCond = "!t.etagRequired" ∧
+    Generated.cacheglue_plainOpen = "f, err := os.Open(cacheFile)" ∧
+    Generated.cacheglue_plainHit = "return {StatusCode: http.StatusOK, Body: f}, nil" ∧
+    Generated.cacheglue_plainMiss = ["if t.offline { return nil, fmt.Errorf(…) }", "return t.wrapped.Do(request)"] ∧
+    Generated.cacheglue_plainMissCalls = ["t.wrapped.Do(request)"] := ⟨rfl, rfl, rfl, rfl, rfl⟩
+
+/-- key discovery goes through that branch (`client(client, false)`), its successful answer is remembered per
+repository in the cache object (`Model.discover`: `memo`) -/
+theorem tie_discovery_client_and_memo : Generated.cacheglue_discoverCalls =
+    ["a.cache.client(client, false)", "a.cache.shared.discoverKeys.Do(repository)"] := rfl
+
+/-- `fetchChainguardKeys` logs the error of a discovery and goes on without keys (`Model.discover … = none` does not
+fail the build: finding F19h for offline builds) -/
+theorem tie_discovery_error_is_logged : Generated.cacheglue_discoverErr =
+    "keys, err := a.DiscoverKeys(ctx, repository); err != nil => log.Warnf(…)" := rfl
 
 end Apko.C19
